@@ -169,6 +169,19 @@ func init() {
 			}
 			return nil
 		},
+		"vSame": func(fr *frame, args []value) value {
+			key, ok1 := concreteGoString(args[0])
+			val, ok2 := concreteGoString(args[1])
+			if !ok1 || !ok2 {
+				panic(engineError{"vSame needs concrete strings"})
+			}
+			if rp := fr.i.replay; rp != nil {
+				rp.out = append(rp.out, fmt.Sprintf("VSAME %q %q", key, val))
+				return nil
+			}
+			fr.i.same(key, val)
+			return nil
+		},
 		"vKnown": func(fr *frame, args []value) value {
 			fr.i.ps().known = args[0].(string)
 			return nil
@@ -193,4 +206,29 @@ func init() {
 			return nil
 		},
 	}
+}
+
+// concreteGoString: the Go string held by a string value whose bytes are all concrete.
+func concreteGoString(v value) (string, bool) {
+	switch v := v.(type) {
+	case string:
+		return v, true
+	case symstr:
+		b := make([]byte, len(v.b))
+		for k, c := range v.b {
+			switch c := c.(type) {
+			case uint8:
+				b[k] = c
+			case sv:
+				if !c.T.isConst() {
+					return "", false
+				}
+				b[k] = byte(c.T.val)
+			default:
+				return "", false
+			}
+		}
+		return string(b), true
+	}
+	return "", false
 }
